@@ -125,11 +125,11 @@ Proof.
     specialize (Hc resp rd eq_refl eq_refl Grd).
     destruct items as [|l [|l2 r]]; [congruence| |].
     + destruct batch as [bs|].
-      * destruct rd as [| | | |[|b0 b]|]; try exact H1. destruct (Nat.eqb _ _); [|exact H1].
+      * destruct rd as [| | | |[|b0 b]|]; try exact H1. destruct (wrong_kind_batch f (b0 :: b)); [exact H1|]. destruct (Nat.eqb _ _); [|exact H1].
         apply merge_buckets_sub; [exact Hmp|exact H1|]. intros locs src Hin l' Hl'. eapply Hc; [reflexivity|exact Hin|exact Hl'].
-      * destruct (Hc l eq_refl) as (w & Hw & Hrw). eapply merge_target_sub; eassumption.
+      * destruct (wrong_kind_single f rd); [exact H1|]. destruct (Hc l eq_refl) as (w & Hw & Hrw). eapply merge_target_sub; eassumption.
     + destruct batch as [bs|].
-      * destruct rd as [| | | |[|b0 b]|]; try exact H1. destruct (Nat.eqb _ _); [|exact H1].
+      * destruct rd as [| | | |[|b0 b]|]; try exact H1. destruct (wrong_kind_batch f (b0 :: b)); [exact H1|]. destruct (Nat.eqb _ _); [|exact H1].
         apply merge_buckets_sub; [exact Hmp|exact H1|]. intros locs src Hin l' Hl'. eapply Hc; [reflexivity|exact Hin|exact Hl'].
       * destruct (Hone eq_refl) as (l' & E). discriminate.
 Qed.
@@ -488,7 +488,7 @@ Section Sim.
       destruct (F (f_id f)) as [k|] eqn:EF.
       + assert (Hsame : ls_data (merge_result f res (select_items (ls_data sF) (f_path f)) batchF sF2) = ls_data sF2).
         { subst res cl. specialize (Hloud _ _ EF). rewrite Hk in Hloud.
-          apply (proj1 (proj2 (loud_outcome answer root_answer f k _ _ _ _ _ sF2 Hrobj Hd Hloud HP))). }
+          apply (proj1 (proj2 (loud_outcome answer root_answer f k _ _ _ _ _ sF2 Hrobj Hd Hloud (fun _ => ltac:(unfold mp_empty; rewrite Hmp; reflexivity)) HP))). }
         rewrite Hsame, HdF2. exact Rs.
       + subst res. apply merge_result_sub; try assumption.
     - (* requests *)
@@ -578,7 +578,10 @@ Qed.
 
 Lemma errors_nonempty_proof : forall answer root_answer kind_of F t,
   (forall id k, F id = Some k -> loud (kind_of id) k = true) -> roots_are_objects root_answer ->
-  forallb (fetch_wf kind_of) (fetches_of t) = true ->
+  forallb (fetch_wf kind_of) (fetches_of t) = true -> forallb (fault_fits F) (fetches_of t) = true ->
   (exists rq, In rq (ls_reqs (run answer root_answer kind_of no_faults t)) /\ F (rq_fetch rq) <> None) ->
   ls_errors (run answer root_answer kind_of F t) <> [].
-Proof. intros answer root_answer kind_of F t Hl Hro. exact (errors_nonempty_partial_proof answer root_answer kind_of F Hl Hro t). Qed.
+Proof.
+  intros answer root_answer kind_of F t Hl Hro Hw Hf.
+  exact (errors_nonempty_partial_proof answer root_answer kind_of F Hl Hro t (fetch_wfF_join _ _ _ Hw Hf)).
+Qed.
